@@ -134,6 +134,17 @@ def gen_idx(tier, seed, want_big=True):
         cid += 1
         cases.append(idx_case("f%d" % cid, cfg, 1, keys, qs))
         stats["styles"]["steep+far"] = stats["styles"].get("steep+far", 0) + 1
+    # floating-point KEY types (judged only, not modelled): moderate densities, duplicates, negative keys
+    for name, eps in (("f32_e16_r4", 16), ("f64_e16_r4", 16), ("f64_e4_r0_d", 4), ("f32_e2_r1", 2)):
+        for j in range(3 if tier == "quick" else 30):
+            n = rng.choice([1, 2, 5, 40, 300, 1500])
+            scale = rng.choice([1.0, 0.25, 8.0, 1000.0])
+            base = rng.choice([0.0, -500.0, 1.0e6 if name.startswith("f64") else 1000.0])
+            vals = sorted(base + scale * rng.randint(0, 4 * n) + rng.choice([0.0, 0.5, 0.25]) * scale for _ in range(n))
+            qs = sorted(set(rng.sample(vals, min(len(vals), 25)) + [v + 0.125 * scale for v in rng.sample(vals, min(len(vals), 10))] + [vals[0] - 10 * scale, vals[-1] + 10 * scale, vals[-1] * 4 + 1e7]))
+            cid += 1
+            cases.append("FLT g%d %s %d | %s | %s" % (cid, name, eps, " ".join(repr(v) for v in vals), " ".join(repr(v) for v in qs)))
+            stats["styles"]["float-keys"] = stats["styles"].get("float-keys", 0) + 1
     if want_big:
         # chunked construction: n >= 2^15, 2..16 threads, duplicate runs placed on chunk seams
         bigs = [c for c in cfgs if c["kbits"] >= 32]
